@@ -905,8 +905,21 @@ def remap_by_types(
                     "func_adl_parameterize d_call. Malformed object or usage."
                 )
 
-            # Get the parameters from the subscript
-            parameters = ast.literal_eval(slice)
+            # Get the parameters from the subscript. The capture pass has turned the names of
+            # the lambda's surroundings into values; python's own names (`float`, `int`) it does
+            # not see - they are values just the same.
+            def parameter_value(p: ast.AST) -> Any:
+                if isinstance(p, ast.Tuple):
+                    return tuple(parameter_value(e) for e in p.elts)
+                if (
+                    isinstance(p, ast.Name)
+                    and p.id not in self._found_types
+                    and hasattr(builtins, p.id)
+                ):
+                    return getattr(builtins, p.id)
+                return ast.literal_eval(p)
+
+            parameters = parameter_value(slice)
 
             # rebuild the expression, removing the slice operation and turning this into a
             # "normal" call.
